@@ -94,9 +94,13 @@ enum Op {
     DropNewClosure,
     /// call the oldest closure on a helper thread and drop it there
     ThreadDropClosure,
+    /// collect the test cases of the newest package (`get_tests().collect()`): one more
+    /// kind of object that must keep the module alive
+    CollectTests,
+    DropOldTests,
 }
 
-const OPS: [Op; 18] = [
+const OPS: [Op; 20] = [
     Op::NewRuntime,
     Op::Compile,
     Op::CompileOld,
@@ -115,6 +119,8 @@ const OPS: [Op; 18] = [
     Op::DropOldClosure,
     Op::DropNewClosure,
     Op::ThreadDropClosure,
+    Op::CollectTests,
+    Op::DropOldTests,
 ];
 
 const START: [Op; 3] = [Op::NewRuntime, Op::Compile, Op::GetNew];
@@ -145,6 +151,8 @@ struct Model {
     pkgs: Vec<Owner>,
     hs: Vec<Owner>,
     cs: Vec<Owner>,
+    /// collected test-case sets
+    ts: Vec<Owner>,
     next_rt: usize,
     next_pkg: usize,
     cur_rt: Option<usize>,
@@ -185,6 +193,7 @@ impl Model {
             pkgs: Vec::new(),
             hs: Vec::new(),
             cs: Vec::new(),
+            ts: Vec::new(),
             next_rt: 0,
             next_pkg: 0,
             cur_rt: None,
@@ -213,6 +222,9 @@ impl Model {
             Op::DropNewRuntime => self.rts.len() >= 2,
             Op::DropOldClosure | Op::ThreadDropClosure => !self.cs.is_empty(),
             Op::DropNewClosure => self.cs.len() >= 2,
+            // (not in scenario worlds: a test case cannot take the stored lists out)
+            Op::CollectTests => !self.sink && !self.pkgs.is_empty() && self.ts.len() < 2,
+            Op::DropOldTests => !self.ts.is_empty(),
         }
     }
 
@@ -270,6 +282,10 @@ impl Model {
             Op::DropNewClosure => {
                 self.cs.pop();
             }
+            Op::CollectTests => self.ts.push(*self.pkgs.last().unwrap()),
+            Op::DropOldTests => {
+                self.ts.remove(0);
+            }
         }
         // closure state nobody owns any more is gone
         let alive = self.state_owners();
@@ -282,6 +298,7 @@ impl Model {
         v.extend(self.pkgs.iter().map(|p| p.1));
         v.extend(self.hs.iter().map(|h| h.1));
         v.extend(self.cs.iter().map(|c| c.1));
+        v.extend(self.ts.iter().map(|c| c.1));
         v.sort();
         v.dedup();
         v
@@ -292,13 +309,14 @@ impl Model {
         let mut v: Vec<usize> = self.pkgs.iter().map(|p| p.0).collect();
         v.extend(self.hs.iter().map(|h| h.0));
         v.extend(self.cs.iter().map(|c| c.0));
+        v.extend(self.ts.iter().map(|c| c.0));
         v.sort();
         v.dedup();
         v
     }
 
     fn owner_count(&self, pkg: usize) -> usize {
-        self.pkgs.iter().chain(self.hs.iter()).chain(self.cs.iter()).filter(|o| o.0 == pkg).count()
+        self.pkgs.iter().chain(self.hs.iter()).chain(self.cs.iter()).chain(self.ts.iter()).filter(|o| o.0 == pkg).count()
     }
 
     /// the object `op` drops, if it is a package, handle or closure
@@ -310,6 +328,7 @@ impl Model {
             Op::DropNewPackage => self.pkgs.last().copied(),
             Op::DropOldClosure | Op::ThreadDropClosure => self.cs.first().copied(),
             Op::DropNewClosure => self.cs.last().copied(),
+            Op::DropOldTests => self.ts.first().copied(),
             _ => None,
         }
     }
@@ -443,6 +462,11 @@ fn make_runtime(id: usize, sink: bool) -> Runtime<NoCtx> {
                 self.tag
             }
         }
+        /// zero-sized drop-tracked type (only counted: it has no fields)
+        #[clone] type Guard = Val<host::TrkZ>;
+        fn mkz() -> Val<host::TrkZ> {
+            Val(host::TrkZ::new())
+        }
         /// a registered constant that owns a tracked value
         const RC: Val<Trk> = Val(rc);
     };
@@ -462,7 +486,15 @@ fn script(pkg_id: usize, sink: bool) -> String {
     let t = SC_TAG + pkg_id as i64;
     let base = "SC.tag() * 1000000 + RC.tag() * 10 + cap_tag() % 10 + (cap2_tag() % 10) * 100000000000 + N * 0";
     if !sink {
-        return format!("const SC: Trk = mk({t});\nconst N: i64 = {pkg_id};\nfn f(mode: i64) -> i64 {{\n    {base} + mode * {ARG_SCALE}\n}}\n");
+        // ZG: a script constant of a zero-sized drop-tracked type. It is never read (compiled
+        // code neither clones nor drops zero-sized values: a known finding of C03); creating it
+        // at compile time and releasing it with the module is what is observed.
+        // The test blocks accept iff constants and captured state are what this package's are.
+        return format!(
+            "const SC: Trk = mk({t});\nconst N: i64 = {pkg_id};\nconst ZG: Guard = mkz();\nfn f(mode: i64) -> i64 {{\n    {base} + mode * {ARG_SCALE}\n}}\n\n\
+             test constants_are_unchanged {{\n    if SC.tag() == {t} && N == {pkg_id} && RC.tag() - {RC_TAG} == cap_tag() - {CAP_TAG} {{\n        accept\n    }}\n    reject\n}}\n\n\
+             test second {{\n    if cap2_tag() - {CAP2_TAG} == cap_tag() - {CAP_TAG} {{\n        accept\n    }}\n    reject\n}}\n"
+        );
     }
     // the lists are built by the script itself: literals and strings it concatenates
     format!(
@@ -476,6 +508,8 @@ struct World {
     pkgs: Vec<Package<NoCtx>>,
     hs: Vec<Handle>,
     cs: Vec<Callable>,
+    /// collected test cases, each behind a closure that runs it: (name, accepted)
+    ts: Vec<Vec<Box<dyn Fn() -> (String, bool)>>>,
     tags: Vec<String>,
 }
 
@@ -483,7 +517,7 @@ type Fail = (String, String);
 
 impl World {
     fn new(sink: bool) -> World {
-        World { m: Model::new(sink), rts: Vec::new(), pkgs: Vec::new(), hs: Vec::new(), cs: Vec::new(), tags: Vec::new() }
+        World { m: Model::new(sink), rts: Vec::new(), pkgs: Vec::new(), hs: Vec::new(), cs: Vec::new(), ts: Vec::new(), tags: Vec::new() }
     }
 
     fn wrong(op: Op, what: &str, o: Owner, got: i64, exp: i64) -> Fail {
@@ -625,6 +659,20 @@ impl World {
                     return Err(World::wrong(op, "the last closure (taking the lists out on a helper thread)", o, got0.unwrap_or(0), exp0.unwrap_or(0)));
                 }
             }
+            Op::CollectTests => {
+                let i = self.pkgs.len() - 1;
+                let tests: Vec<Box<dyn Fn() -> (String, bool)>> = self.pkgs[i]
+                    .get_tests()
+                    .map(|t| Box::new(move || (t.name().to_string(), t.run(&mut NoCtx).is_ok())) as Box<dyn Fn() -> (String, bool)>)
+                    .collect();
+                if tests.len() != 2 {
+                    return Err((format!("lifetimes:test-cases-missing@{op:?}"), format!("get_tests yields {} test cases, the script has 2", tests.len())));
+                }
+                self.ts.push(tests);
+            }
+            Op::DropOldTests => {
+                self.ts.remove(0);
+            }
         }
         self.m.step(op);
         Ok(())
@@ -635,6 +683,18 @@ impl World {
         let rep = host::ledger_report();
         if let Some(a) = rep.alarms.first() {
             return Err((format!("lifetimes:ledger-{}@{op:?}", a.kind), format!("{} {}", a.kind, a.info)));
+        }
+        // zero-sized script constants: one per module somebody still owns (plain worlds)
+        if !self.m.sink {
+            let z = host::Z_LIVE.load(std::sync::atomic::Ordering::SeqCst);
+            let ez = self.m.module_owners().len() as i64;
+            if z != ez {
+                let kind = if z < ez { "released-too-early" } else { "not-released" };
+                return Err((
+                    format!("lifetimes:{kind}:zero-sized-script-constant@{op:?}"),
+                    format!("{z} zero-sized script constants are live, the ownership model expects {ez} (one per module that is still owned)"),
+                ));
+            }
         }
         let live = live_tags();
         let exp = self.m.expected_live();
@@ -686,6 +746,20 @@ impl World {
             *events += 1;
             if got != exp {
                 return Err(World::wrong(op, "into_func closure", o, got, exp));
+            }
+        }
+        // every collected test case still runs and still accepts
+        for (i, set) in self.ts.iter().enumerate() {
+            let o = self.m.ts[i];
+            for t in set {
+                *events += 1;
+                let (name, accepted) = t();
+                if !accepted {
+                    return Err((
+                        format!("lifetimes:wrong-result-after@{op:?}:collected-test-case"),
+                        format!("test case `{name}` of package {} (runtime {}) rejects: its constants or captured state changed", o.0, o.1),
+                    ));
+                }
             }
         }
         Ok(())
